@@ -710,6 +710,69 @@ theorem inv_config {c : Client} {s : State} (hI : Inv c s) (k : CfgV) (order : L
     · exact h.inv_of_closed hn
 
 
+/-- **After a `didChangeConfiguration` everything is current** — from any structurally sound state,
+however stale its configuration facets are. -/
+theorem config_repairs {c : Client} {s : State} (hW : ∀ v, WeakAt c s v) (k : CfgV) (order : List Url)
+    (hd : ∀ u, DiskIsBuf c s u) (ho : ∀ u, u ∈ order ↔ (s.docs u).isSome = true) :
+    Inv { c with ck := k } (handle k s (.didChangeConfiguration k order)) := by
+  rw [handle_config]
+  generalize hc' : ({ c with ck := k } : Client) = c'
+  have hck : c'.ck = k := by subst hc'; rfl
+  have hbuf : c'.buf = c.buf := by subst hc'; rfl
+  have hign : c'.ign = c.ign := by subst hc'; rfl
+  have hL : LoopInv c' (rebuild k s order) := by
+    refine ⟨by rw [hck]; rfl, ?_, fun v => Or.inr ?_⟩
+    · intro v t l hb; rw [hbuf] at hb; exact hd v t l hb
+    · have hv := hW v
+      unfold WeakAt at hv
+      unfold HalfAt
+      rw [hbuf, hign, hck]
+      cases hb : c.buf v with
+      | none => simp only [hb] at hv ⊢; simpa [rebuild, hv.1] using hv.2
+      | some p =>
+        obtain ⟨t, l⟩ := p
+        simp only [hb] at hv ⊢
+        refine ⟨hv.1, ?_⟩
+        by_cases hl : l = .unknown
+        · simp only [hl, if_true] at hv ⊢; simpa [rebuild, hv.2.1] using hv.2.2
+        · simp only [hl, if_false] at hv ⊢
+          obtain ⟨d, hd1, hd2, hd3, hd4, hd5⟩ := hv.2
+          refine ⟨hd v t l hb, ?_⟩
+          simp [rebuild, hd1, hd2, hd3, hd4, hd5]
+  have := loop_all (c := c') order _ (hck ▸ hL)
+  rw [hck] at this
+  obtain ⟨hL2, hin, hout, _⟩ := this
+  refine ⟨hL2.1, fun v => ?_⟩
+  by_cases hv : v ∈ order
+  · exact hin v hv
+  · have hnone : s.docs v = none := by
+      cases h : s.docs v with
+      | none => rfl
+      | some d => exact absurd ((ho v).mpr (by simp [h])) hv
+    have hn : (order.foldl (rereadPub k) (rebuild k s order)).docs v = none := by
+      rw [hout v hv]; simp [rebuild, hnone]
+    rcases hL2.2.2 v with h | h
+    · exact h
+    · exact h.inv_of_closed hn
+
+/-- a state that satisfies the invariant is structurally sound for ANY client configuration -/
+theorem Inv.weak {c : Client} {s : State} (hI : Inv c s) (k : CfgV) :
+    ∀ v, WeakAt { c with ck := k } s v := by
+  intro v
+  have hv := hI.2 v
+  unfold InvAt at hv
+  unfold WeakAt
+  cases hb : c.buf v with
+  | none => simpa [hb] using hv
+  | some p =>
+    obtain ⟨t, l⟩ := p
+    simp only [hb] at hv ⊢
+    refine ⟨hv.1, ?_⟩
+    by_cases hl : l = .unknown
+    · simpa [hl] using hv.2
+    · simp only [hl, if_false] at hv ⊢
+      exact ⟨_, hv.2.1, by simp [goodDoc]⟩
+
 theorem inv_step {c : Client} {s : State} (hI : Inv c s) (op : Op) (hok : OpOk c s op) :
     Inv (seqStep (c, s) op).1 (seqStep (c, s) op).2 := by
   cases op with
